@@ -181,7 +181,7 @@ func (t *table) openRowStore(opts *rowStoreOptions) (*rowStore, common.OffsetsBy
 		rs.processInserts(offsetsBySource, stop)
 	})
 	t.db.Go(rs.removeOldFiles)
-	vhook("rs.open", t.Name, existingFileName, offsetsBySource)
+	vhook("rs.open", t, existingFileName, offsetsBySource)
 
 	return rs, offsetsBySource, nil
 }
@@ -246,7 +246,7 @@ func (rs *rowStore) processInserts(offsetsBySource common.OffsetsBySource, stop 
 	rs.mx.Lock()
 	rs.memStore = ms
 	rs.mx.Unlock()
-	vhook("rs.ready", rs.t.Name)
+	vhook("rs.ready", rs.t)
 
 	flushInterval := rs.opts.maxFlushLatency
 	flushTimer := time.NewTimer(flushInterval)
@@ -262,7 +262,7 @@ func (rs *rowStore) processInserts(offsetsBySource common.OffsetsBySource, stop 
 				if err != nil {
 					rs.t.log.Errorf("Unable to write updated offset: %v", err)
 				}
-				vhook("off.written", rs.t.Name, ms.offsetsBySource, err)
+				vhook("off.written", rs.t, ms.offsetsBySource, err)
 				ms.offsetChanged = false
 			}
 
@@ -295,7 +295,7 @@ func (rs *rowStore) processInserts(offsetsBySource common.OffsetsBySource, stop 
 				ms.tree.Update(insert.key, nil, insert.vals, insert.metadata)
 				rs.t.updateHighWaterMarkMemory(insert.vals.TimeInt())
 			}
-			vhook("rs.apply", rs.t.Name, insert.offset, insert.source, insert.key != nil)
+			vhook("rs.apply", rs.t, insert.offset, insert.source, insert.key != nil)
 			rs.mx.Unlock()
 		case <-flushTimer.C:
 			rs.t.log.Trace("Requesting flush due to flush interval")
@@ -313,7 +313,7 @@ func (rs *rowStore) processInserts(offsetsBySource common.OffsetsBySource, stop 
 			rs.t.log.Debugf("Updating fields to %v", fields)
 			// update fields immediately
 			rs.fields = fields
-			vhook("rs.fields", rs.t.Name, fields)
+			vhook("rs.fields", rs.t, fields)
 
 			// force flush before processing any more inserts
 			offsetsBySource = ms.offsetsBySource
@@ -339,7 +339,7 @@ func (rs *rowStore) iterate(ctx context.Context, outFields core.Fields, includeM
 	if includeMemStore {
 		ms = rs.memStore.copy()
 	}
-	vhook("iter.start", rs.t.Name, fs.filename, includeMemStore, ms)
+	vhook("iter.start", rs.t, fs.filename, includeMemStore, ms)
 	rs.mx.RUnlock()
 	rs.mx.Lock()
 	rs.iterationsInProgress[fs.filename]++
@@ -386,7 +386,7 @@ func (rs *rowStore) doProcessFlush(ms *memstore, allowSort, allowFailure bool) (
 	if disallowRaw {
 		rs.t.log.Debug("Disallowing raw on flush to force truncation")
 	}
-	vhook("flush.begin", rs.t.Name, rs.flushCount, disallowRaw, shouldSort, fs.filename, ms.offsetsBySource)
+	vhook("flush.begin", rs.t, rs.flushCount, disallowRaw, shouldSort, fs.filename, ms.offsetsBySource)
 
 	fs.t.log.Debugf("Starting flush, %v", willSort)
 	start := time.Now()
@@ -414,7 +414,7 @@ func (rs *rowStore) doProcessFlush(ms *memstore, allowSort, allowFailure bool) (
 		rs.t.db.Panic(flushErr)
 	}
 
-	vhook("flush.temp", rs.t.Name, out.Name(), rowCount)
+	vhook("flush.temp", rs.t, out.Name(), rowCount)
 	if syncErr := out.Sync(); syncErr != nil {
 		rs.t.db.Panic(syncErr)
 	}
@@ -433,7 +433,7 @@ func (rs *rowStore) doProcessFlush(ms *memstore, allowSort, allowFailure bool) (
 	if renameErr := os.Rename(out.Name(), newFileStoreName); renameErr != nil {
 		rs.t.db.Panic(renameErr)
 	}
-	vhook("flush.renamed", rs.t.Name, newFileStoreName, ms.offsetsBySource)
+	vhook("flush.renamed", rs.t, newFileStoreName, ms.offsetsBySource)
 	defer func() {
 		shasum, err := calcShaSum(newFileStoreName)
 		if err != nil {
@@ -448,9 +448,9 @@ func (rs *rowStore) doProcessFlush(ms *memstore, allowSort, allowFailure bool) (
 	rs.mx.Lock()
 	rs.fileStore = fs
 	rs.memStore = ms
-	vhook("flush.swapped", rs.t.Name, newFileStoreName)
+	vhook("flush.swapped", rs.t, newFileStoreName)
 	rs.mx.Unlock()
-	vhook("flush.done", rs.t.Name, newFileStoreName)
+	vhook("flush.done", rs.t, newFileStoreName)
 
 	flushDuration := time.Now().Sub(start)
 	if fi != nil {
@@ -685,7 +685,7 @@ func (rs *rowStore) writeOffsets(offsetsBySource common.OffsetsBySource) error {
 	if err != nil {
 		return errors.New("Unable to close offset file: %v", err)
 	}
-	vhook("off.temp", rs.t.Name, out.Name(), offsetsBySource)
+	vhook("off.temp", rs.t, out.Name(), offsetsBySource)
 
 	return os.Rename(out.Name(), filepath.Join(rs.opts.dir, offsetFilename))
 }
@@ -726,7 +726,7 @@ func (rs *rowStore) removeOldFiles(stop <-chan interface{}) {
 					// Okay to delete now
 					name := filepath.Join(rs.opts.dir, filename)
 					rs.t.log.Debugf("Removing old file %v", name)
-					vhook("old.remove", rs.t.Name, name)
+					vhook("old.remove", rs.t, name)
 					err := os.Remove(name)
 					if err != nil {
 						rs.t.log.Errorf("Unable to delete old file store %v, still consuming disk space unnecessarily: %v", name, err)
